@@ -1275,6 +1275,13 @@ class Interp:
     def call_def(self, st, fv, pos, kws, node, opaque_kwargs=False):
         fdef = fv.node
         qual = fv.name
+        # decorators change what a call means (functools.lru_cache / cache make the result depend on the history of earlier
+        # calls).  Only the ones whose meaning the executor implements are accepted; anything else leaves the verifier's reach.
+        for d in getattr(fdef, "decorator_list", []):
+            dn = ast.unparse(d.func if isinstance(d, ast.Call) else d)
+            if dn.split(".")[-1] not in ("staticmethod", "classmethod", "property", "abstractmethod", "wraps"):
+                raise EngineError(f"decorator @{dn} on {qual} is not modelled (memoising / wrapping decorators make a call depend on "
+                                  f"earlier calls) at {self.where(node)}")
         c = self.specs.get(qual)
         env = self.bind_args(fdef, pos, kws, st, fv, node, opaque_kwargs)
         if isinstance(env, Exc):
